@@ -48,6 +48,12 @@ static void handler(vh::Reader& r, vh::Out& o)
 			o.w("ROUNDING_MODE_CHANGED");
 		return;
 	}
+	if(op == "gen")
+	{
+		// gen <case>: the same request; on the model side it is answered by the terms regenerated from the C++ source (T-tie) instead of the hand model
+		handler(r, o);
+		return;
+	}
 	if(op == "sign")
 		o.i(Sign(r.num()));
 	else if(op == "sign2")
